@@ -4,15 +4,15 @@ go 1.23
 
 require (
 	github.com/mattn/go-sqlite3 v1.14.22
+	github.com/quagmt/udecimal v1.8.0
 	github.com/quickfixgo/quickfix v0.0.0
+	github.com/shopspring/decimal v1.4.0
 	pgregory.net/rapid v1.3.0
 )
 
 require (
 	github.com/pires/go-proxyproto v0.7.0 // indirect
 	github.com/pkg/errors v0.9.1 // indirect
-	github.com/quagmt/udecimal v1.8.0 // indirect
-	github.com/shopspring/decimal v1.4.0 // indirect
 	golang.org/x/net v0.24.0 // indirect
 )
 
